@@ -22,6 +22,7 @@ structure Output where
   result : Result
   executed : Nat               -- SyncExec calls made
   deleted : Bool               -- the cache file is gone afterwards
+  persistAfter : Option Bool   -- the `_persist` sidecar of the blob afterwards (none: no sidecar / no blob)
   deriving Repr, DecidableEq
 
 /-- `for _, task := range tasks { if err := SyncExec(task); err != nil { return } }`:
@@ -34,13 +35,22 @@ def execAll : List Bool → Nat × Bool
 def maybeDelete (i : Input) : Output :=
   if i.expired || !i.owns then
     if i.persist == some true then
-      if i.findFails then { result := .error, executed := 0, deleted := false }
+      -- any failure before the flag is cleared leaves the blob and its flag as they were
+      if i.findFails then { result := .error, executed := 0, deleted := false, persistAfter := i.persist }
       else if (execAll i.tasks).2 then
         -- DeleteCacheFileMetadata(persist), then DeleteCacheFile
-        { result := .deleted, executed := (execAll i.tasks).1, deleted := true }
-      else { result := .error, executed := (execAll i.tasks).1, deleted := false }
-    else { result := .deleted, executed := 0, deleted := true }
-  else { result := .kept, executed := 0, deleted := false }
+        { result := .deleted, executed := (execAll i.tasks).1, deleted := true, persistAfter := none }
+      else { result := .error, executed := (execAll i.tasks).1, deleted := false, persistAfter := i.persist }
+    else { result := .deleted, executed := 0, deleted := true, persistAfter := none }
+  else { result := .kept, executed := 0, deleted := false, persistAfter := i.persist }
+
+/-- what a later `DeleteCacheFile` of the blob answers -/
+inductive DelRes where
+  | ok | persisted | notExist
+  deriving Repr, DecidableEq
+
+def deleteAfter (o : Output) : DelRes :=
+  if o.deleted then .notExist else if o.persistAfter == some true then .persisted else .ok
 
 def outTok : Result → String
   | .kept => "kept" | .deleted => "deleted" | .error => "error"
